@@ -55,7 +55,7 @@ JOBS += [
 ] + [
     dict(name=nm, entry='h_flush_block', enforce='delta_encoder_flush_block',
          replace=['write_uleb128', 'bit_width_required'], min_loop_obligations=10, defines=defs,
-         trusted=[BITPACK_STUB], timeout=1500,
+         trusted=[BITPACK_STUB], timeout=1700, est_s=1400,
          **dict(D11, props=pr))
     for nm, defs, pr in [
         ('c11_delta_flush_block_safe', [], ['C11']),   # writes < capacity, reads < 128 deltas, frame, bytes written == min-delta varint + 4 + packed_bytes_needed
@@ -81,18 +81,18 @@ DONE = ['c08_delta_read_uleb128', 'c08_delta_read_block', 'c08_delta_decoder_nex
         'c11_delta_zigzag_uleb_roundtrip', 'c11_delta_write_uleb128', 'c11_delta_bit_width_required',
         # ok since /repo d3d9d9d (bitunpack_32 partial group), cbbbeed (width > 64), afcedfb (prefix+suffix overflow);
         # each fails again with its fix reverted / the seeded header and sign-extension mutations
-        'c08_delta_decoder_init', 'c08_delta_read_mini_block', 'c08_delta_strings_decode', 'c08_delta_strings_views_leak']
+        'c08_delta_decoder_init', 'c08_delta_read_mini_block', 'c08_delta_strings_decode', 'c08_delta_strings_views_leak',
+        # encoder side: ok on /repo afcedfb, each reported a seeded breakage (wrong packed_bytes_needed for widths > 32,
+        # flush at > 128 deltas, 4-byte header guard, block size 64)
+        'c11_delta_flush_block_safe', 'c11_delta_encoder_init', 'c11_delta_encode_int32', 'c11_delta_encode_int64']
 NOTES = {
-    'c11_delta_flush_block_safe': 'undecided: SAT timeout (900 s); needs a cheaper decomposition of the ten loops',
-    'c11_delta_flush_block_fit': 'undecided: not run to completion (see c11_delta_flush_block_safe)',
-    'c12_delta_flush_block_spec_size': 'undecided: not run to completion; expected to FAIL for widths 33..63 not divisible by 8 '
+    'c11_delta_flush_block_fit': 'not yet run to completion with the all-loop-contract decomposition (about 25 min)',
+    'c12_delta_flush_block_spec_size': 'KNOWN FINDING candidate (demo /tmp/delta/demo_c12_width.c): expected to FAIL for widths 33..63 not divisible by 8 '
         '(encoder and decoder use ceil(w/8) whole bytes per value instead of bit packing)',
-    'c11_delta_encode_int32': 'undecided: goto-instrument --enforce-contract aborts on the loop contract (tool error), not analysed',
-    'c11_delta_encode_int64': 'undecided: cbmc aborted (rc=-6), not analysed',
 }
 for _j in JOBS:
     _j['wip'] = _j['name'] not in DONE
     if _j['name'] in NOTES:
         _j['note'] = NOTES[_j['name']]
-    if _j['name'].startswith('c11_delta_flush') or _j['name'].startswith('c12_delta_flush') or _j['name'].startswith('c11_delta_encode_'):
+    if _j['name'].startswith('c11_delta_flush') or _j['name'].startswith('c12_delta_flush'):
         _j['tier'] = 'thorough'
